@@ -679,7 +679,7 @@ impl Prop for C35 {
                 }
             }
         }
-        n += member_programs().len() as u64;
+        n += member_programs().len() as u64 + generic_hover_programs().len() as u64;
         Some(n)
     }
     fn run_unit(&self, tier: Tier, unit: usize, out: &mut UnitOut) {
@@ -723,12 +723,13 @@ impl Prop for C35 {
              B: depth <= 1 one-name programs again behind a first-line comment with 1 or 3 non-ASCII characters. \
              C: {} types x {} binding contexts, type_at on the use (and on the first byte of literal/tuple/array expressions) compared with the documented type syntax modulo white space and a leading `fn`. \
              M: {} programs in which struct fields (patterns in match arms and lets and constructor arguments with the named fields written in every order, reads, writes), enum variants (qualified / unqualified expressions and patterns, named variant fields), \
-             function parameters (named arguments in every order), functions and member functions are used next to locals of the same names; the run must show that the compiler binds by name, and definition_at at every byte of every marked use must return a range that starts at the marked declaration identifier and covers it. \
+             function parameters (named arguments in every order), functions and member functions are used next to locals of the same names; the run must show that the compiler binds by name, and definition_at at every byte of every marked use must return a range that starts at the marked declaration identifier and covers it; plus {} programs in which type_at on a USE of a generic function must show the instantiated type of that use. \
              Non-trivial: programs of A/B in which an observed use has a name with >= 2 bindings, and every C program.",
             fams.iter().filter(|f| f.names == 2 && f.kinds.len() == 2).map(|f| f.alphabet.len()).max().unwrap_or(0),
             TYPES.len(),
             CONTEXTS.len(),
-            member_programs().len()
+            member_programs().len(),
+            generic_hover_programs().len()
         )
     }
     fn assumptions(&self) -> Vec<String> {
@@ -1001,7 +1002,73 @@ fn member_programs() -> Vec<(String, String, Vec<i64>)> {
     v
 }
 
+/// Hover on a USE of a generic function shows the type the checker inferred for that use (the instantiation), not
+/// the declared signature. (case name, program with one `«q»` marker in front of the queried identifier, expected type)
+fn generic_hover_programs() -> Vec<(String, String, String)> {
+    let d = "fn ident(x: T) -> T = x\nfn twice(f: T -> T, x: T) -> T = f(f(x))\nfn inc(n: int) -> int = n + 1\nfn pairup(a: T, b: U) -> (U, T) = (b, a)\n";
+    let mut v = vec![];
+    let mut add = |name: &str, body: &str, ty: &str| v.push((name.to_string(), format!("{d}{body}\n"), ty.to_string()));
+    add("ident at int", "let a = «q»ident(3)", "fn(int) -> int");
+    add("ident at string", "let a = «q»ident(\"s\")", "fn(string) -> string");
+    add("ident at bool, second use after an int use", "let z = ident(1)\nlet a = «q»ident(true)", "fn(bool) -> bool");
+    add("ident inside a lambda", "let g = (x: int) -> «q»ident(x)", "fn(int) -> int");
+    add("twice at int", "let a = «q»twice(inc, 4)", "fn(fn(int) -> int, int) -> int");
+    add("pairup at (int, string)", "let a = «q»pairup(1, \"s\")", "fn(int, string) -> (string, int)");
+    add("a monomorphic function", "let a = «q»inc(3)", "fn(int) -> int");
+    v
+}
+
+fn run_generic_hover(out: &mut UnitOut, first_idx: u64) {
+    for (k, (name, marked, ty)) in generic_hover_programs().into_iter().enumerate() {
+        if !out.begin_case(first_idx + k as u64) {
+            continue;
+        }
+        let at = marked.find('«').expect("marker");
+        let text = marked.replace("«q»", "");
+        let n = text[at..].bytes().take_while(|c| c.is_ascii_alphanumeric() || *c == b'_').count();
+        let case_text = format!("C35 hover on a use of a generic function: {name}");
+        out.describe_case(&format!("{case_text}\n{text}"));
+        out.evaluations += 1;
+        out.nontrivial_text(&case_text);
+        let key0 = format!("input:{}", hkey(&case_text));
+        let src = Src::single(&text);
+        if !matches!(drive::check(&src, 1), drive::Checked::Ok) {
+            out.class("violation:rejected");
+            out.violation(vec![key0], format!("{case_text}: program rejected"), json!({"case": case_text, "program": text}));
+            continue;
+        }
+        let a = match lsp(&src) {
+            Ok(a) => a,
+            Err(p) => {
+                out.class("violation:check_lsp-panic");
+                out.violation(vec![key0, p.site_key()], format!("{case_text}: check_lsp panicked at {}: {}", p.site, p.msg), json!({"case": case_text, "program": text}));
+                continue;
+            }
+        };
+        let fid = main_file_id(&a);
+        let mut problems = vec![];
+        for off in at..at + n {
+            out.count("lsp_queries", 1);
+            match drive::catch(|| a.type_at(fid, off)) {
+                Err(p) => problems.push(format!("type_at({off}) panicked at {}: {}", p.site, p.msg)),
+                Ok(got) => {
+                    if got.as_deref().map(norm_ty) != Some(norm_ty(&ty)) {
+                        problems.push(format!("type_at({off}) on `{}` returned {:?}, the checker inferred `{ty}` for this use", &text[at..at + n], got));
+                    }
+                }
+            }
+        }
+        if problems.is_empty() {
+            out.class("hover-agrees:generic-use");
+        } else {
+            out.class("violation:hover-disagrees");
+            out.violation(vec![key0], format!("{case_text}: {}", problems[0]), json!({"case": case_text, "program": text, "problems": problems}));
+        }
+    }
+}
+
 fn run_members(out: &mut UnitOut) {
+    run_generic_hover(out, 1000);
     for (idx, (name, marked, want)) in member_programs().into_iter().enumerate() {
         if !out.begin_case(idx as u64) {
             continue;
